@@ -433,6 +433,27 @@ def execute(trace, ctx):
         if bool(got) != want:
             ctx.violate(P, "connectivity", f"are_connected={got} but the graph of {n} atoms / {len(truth['edges'])} bonds is "
                                            f"{'connected' if want else 'not connected'}")
+    # the path is re-used: a same-length variant (one atom renamed) is written over it and loaded again
+    if trace.get("reload", True) and n <= 200:
+        variant = _same_length_variant(render(trace["ops"], trace.get("final_newline", True)))
+        if variant is not None:
+            first_atom_new = None
+            try:
+                with open(path, "w") as f:
+                    f.write(variant)
+                name2, atoms2, bonds2 = read_topology(path) if how != "forced_format" else read_topology(path, file_format="itp")
+                mt2 = MoleculeTop(path) if how != "forced_format" else MoleculeTop(path, file_format="itp")
+                names_now = [tuple(a)[0] for a in atoms2]
+                names_mt = [a.name for a in mt2]
+                want_names = [a[0] for a in truth["atoms"]]
+                diff = [k for k in range(min(len(names_now), n)) if names_now[k] != want_names[k]]
+                if len(names_now) != n or len(diff) != 1 or names_mt != names_now or \
+                        {frozenset(b) for b in bonds2} != truth["edges"] or name2 != truth["name"]:
+                    ctx.violate(P, "reload-after-overwrite", f"the file was replaced by a variant with ONE atom renamed; the reader now "
+                                                             f"reports {len(diff)} renamed atoms (names {names_now[:5]}...)")
+                ctx.probe("path_overwritten_and_loaded_again")
+            except Exception as e:
+                ctx.violate(P, "reload-after-overwrite", f"loading the replaced file raised {type(e).__name__}: {e}")
     # copy: equal but independent
     try:
         cp = mt.copy()
